@@ -280,7 +280,7 @@ Fixpoint evict_loop_pre (s : sess) (pq : positive) (p : task) (nid : positive)
     end
   end.
 
-(* reclaim.go 222-233: the running sum [avail] is not re-read from the node *)
+(* reclaim.go 227-240: the running sum [avail] is not re-read from the node *)
 Fixpoint evict_loop_rec (s : sess) (p : task) (avail : res)
     (vs : list task) (order : list positive) (done : list task) : sess * list task * res * Z :=
   if less_equal eps (t_init p) avail DZero then (s, done, avail, V_OK) else
@@ -316,7 +316,8 @@ Definition run_attempt (k : akind) (s : sess) (p : task) (pq : positive) (a : at
     let '(s1, done, fits, v) :=
       if is_reclaim k then
         let '(s1, done, avail, v) := evict_loop_rec s p (future_idle n) vs (at_order a) [] in
-        (s1, done, less_equal eps (t_init p) avail DZero, v)
+        (* reclaim.go 247-259: enough room by the running sum, and the queue still admits the task *)
+        (s1, done, less_equal eps (t_init p) avail DZero && queue_allocatable s1 pq p, v)
       else
         let '(s1, done, v) := evict_loop_pre s pq p (at_node a) vs (at_order a) [] in
         (s1, done, preemptor_fits s1 pq p (at_node a), v) in
